@@ -60,11 +60,10 @@ def anchored_functions(prop):
                 a = int(mm.group(1))
                 b = int(mm.group(2) or a)
                 spans.append((a, b))
-        for node in ast.walk(tree):
-            if isinstance(node, (ast.FunctionDef, ast.AsyncFunctionDef)):
-                for a, b in spans:
-                    if node.lineno <= b and node.end_lineno >= a:
-                        out.setdefault(path, set()).add(node.name)
+        for qual, node in qualified_functions(tree):
+            for a, b in spans:
+                if node.lineno <= b and node.end_lineno >= a:
+                    out.setdefault(path, set()).add(qual)
     return out
 
 
@@ -83,6 +82,15 @@ class Mutator(ast.NodeTransformer):
             self.desc = desc
             return True
         return False
+
+    def visit_Call(self, node):
+        f = node.func
+        if isinstance(f, ast.Name) and f.id == "print":
+            return node         # progress output is not behaviour
+        if isinstance(f, ast.Attribute) and isinstance(f.value, ast.Name) and f.value.id in ("logger", "logging", "warnings", "traceback"):
+            return node
+        self.generic_visit(node)
+        return node
 
     def visit_Compare(self, node):
         self.generic_visit(node)
@@ -140,10 +148,24 @@ class Mutator(ast.NodeTransformer):
         return node
 
 
+def qualified_functions(tree):
+    """[(Class.function or function, node)] for every function of the module (nested functions belong to their outer one)."""
+    out = []
+
+    def walk(body, prefix):
+        for node in body:
+            if isinstance(node, (ast.FunctionDef, ast.AsyncFunctionDef)):
+                out.append((prefix + node.name, node))
+            elif isinstance(node, ast.ClassDef):
+                walk(node.body, prefix + node.name + ".")
+    walk(tree.body, "")
+    return out
+
+
 def function_nodes(tree, names):
-    for node in ast.walk(tree):
-        if isinstance(node, (ast.FunctionDef, ast.AsyncFunctionDef)) and node.name in names:
-            yield node
+    for qual, node in qualified_functions(tree):
+        if qual in names:
+            yield qual, node
 
 
 def candidates(path, names):
@@ -152,13 +174,13 @@ def candidates(path, names):
     tree = ast.parse(src)
     out = []
     seen = {}
-    for node in function_nodes(tree, names):
-        occ = seen.get(node.name, 0)
-        seen[node.name] = occ + 1
+    for qual, node in function_nodes(tree, names):
+        occ = seen.get(qual, 0)
+        seen[qual] = occ + 1
         m = Mutator(None)
         m.visit(copy.deepcopy(node))
         for k in range(m.n):
-            out.append((node.name, occ, k))
+            out.append((qual, occ, k))
     return out
 
 
@@ -168,7 +190,7 @@ def make_mutant(path, fname, occ, k):
     lines = src.split("\n")
     tree = ast.parse(src)
     seen = 0
-    for node in function_nodes(tree, {fname}):
+    for qual, node in function_nodes(tree, {fname}):
         if seen != occ:
             seen += 1
             continue
